@@ -15,6 +15,8 @@ __attribute__((noinline)) void e_intnorm(PhaseSpace* p) { p->integrateAndNormali
 __attribute__((noinline)) void e_average(PhaseSpace* p, unsigned axis) { p->average(axis); }
 __attribute__((noinline)) void e_variance(PhaseSpace* p, unsigned axis) { p->variance(axis); }
 __attribute__((noinline)) PhaseSpace* e_copy(PhaseSpace* p) { return new PhaseSpace(*p); }
+__attribute__((noinline)) meshaxis_t e_x(PhaseSpace* p, meshaxis_t q) { return p->x(q); }
+__attribute__((noinline)) meshaxis_t e_y(PhaseSpace* p, meshaxis_t q) { return p->y(q); }
 __attribute__((noinline)) meshdata_t* e_data(PhaseSpace* p) { return p->getData(); }
 __attribute__((noinline)) projection_t* e_proj(PhaseSpace* p) { return p->_projection.data(); }
 __attribute__((noinline)) integral_t* e_filling(PhaseSpace* p) { return p->_filling.data(); }
